@@ -39,13 +39,15 @@
                   on a back-end (ProcessForwardMsg ignored the error and relayed an empty success)
      MEncPanic    completes successfully with a result whose encoding PANICS (a user MarshalJSON that
                   dereferences nil): SafeCall's recover completes the request with an error
-     MEchoLater / MUnencLater   as MEcho / MUnenc, but the handler completes in a later turn of its
-                  service (asynchronous completion) *)
+     MEchoLater / MUnencLater / MEncPanicLater   as MEcho / MUnenc / MEncPanic, but the handler
+                  completes in a later turn of its service (asynchronous completion: outside
+                  SafeCall's recover; REPAIRED for the panicking encoding by
+                  hooks/C02-fix-async-marshal-panic.patch) *)
 From Cell2V Require Import Common.Tac Common.ListX Common.AList.
 
 Inductive meth :=
 | MEcho | MSetKey (v : Z) | MFail | MBoom | MNever | MNote | MNoMethod | MNoGroup | MBadPayload
-| MUnenc | MEncPanic | MEchoLater | MUnencLater.
+| MUnenc | MEncPanic | MEchoLater | MUnencLater | MEncPanicLater.
 
 Inductive route :=
 | RT (ty : Z) (m : meth)        (* well-formed  type.group.method *)
@@ -89,13 +91,13 @@ Definition completes (m : meth) : completion :=
   match m with
   | MEcho | MSetKey _ | MEchoLater => CReply
   | MNever => CSilent
-  | MFail | MBoom | MNote | MNoMethod | MNoGroup | MBadPayload | MUnenc | MEncPanic | MUnencLater => CErr
+  | MFail | MBoom | MNote | MNoMethod | MNoGroup | MBadPayload | MUnenc | MEncPanic | MUnencLater | MEncPanicLater => CErr
   end.
 
 (* is the user's handler function entered? ([isreq]: the call carries a completion) *)
 Definition invoked (m : meth) (isreq : bool) : bool :=
   match m with
-  | MEcho | MSetKey _ | MFail | MBoom | MNever | MUnenc | MEncPanic | MEchoLater | MUnencLater => true
+  | MEcho | MSetKey _ | MFail | MBoom | MNever | MUnenc | MEncPanic | MEchoLater | MUnencLater | MEncPanicLater => true
   | MNote => negb isreq        (* request to a notify-shaped method: refused before the call *)
   | MNoMethod | MNoGroup | MBadPayload => false
   end.
